@@ -75,8 +75,13 @@ def run(cx):
     step = 1 if not cx.quick() else 6
     for i, a in enumerate(pairs[::step]):
         prog_rows.append({"id": 100000 + i, "ast": a})
+    # every second random program and every operator pair (again) with the minimal parentheses
+    for p in prog_rows:
+        p["min"] = p["id"] < 100000 and p["id"] % 2 == 1
+    for i, a in enumerate(pairs[::step]):
+        prog_rows.append({"id": 200000 + i, "ast": a, "min": True})
     allp = cx.path("allprogs.ndjson")
-    vlib.write_ndjson(allp, [{"id": p["id"], "ast": p["ast"]} for p in prog_rows])
+    vlib.write_ndjson(allp, [{"id": p["id"], "ast": p["ast"], "min": p["min"]} for p in prog_rows])
     vout = cx.path("variants.ndjson")
     cx.run([lay, "variants", "-in", allp, "-table", tpath, "-seed", str(cx.seed), "-out", vout], timeout=3000)
     tried = gaps = nprogs = 0
